@@ -13,7 +13,7 @@ if ! (cd "$mut" && patch -p1 -s < "$out/patch.diff") >> "$R" 2>&1; then echo "PA
 (cd "$mut" && PYTHONPATH="$mut" timeout 300 /venv/bin/python -W ignore seed/demo.py > "$out/demo_output_mutant.txt" 2>&1); m=$?
 echo "demo: unchanged exit=$b mutant exit=$m" | tee -a "$R"
 if [ "$SKIP_TESTS" != 1 ]; then
-  (cd "$mut" && timeout 1500 /venv/bin/python -W ignore -m pytest -q -p no:cacheprovider --timeout=900 tests 2>&1 | tail -12 | grep -E "^FAILED|^ERROR|passed|failed") > "$out/tests_mutant.txt" 2>&1
+  (cd "$mut" && timeout 1500 unshare -n sh -c 'ip link set lo up; exec "$@"' sh /venv/bin/python -W ignore -m pytest -q -p no:cacheprovider --timeout=900 tests 2>&1 | tail -12 | grep -E "^FAILED|^ERROR|passed|failed") > "$out/tests_mutant.txt" 2>&1
   echo "tests(mutant): $(tail -1 "$out/tests_mutant.txt")" | tee -a "$R"
   grep -E "^FAILED|^ERROR" "$out/tests_mutant.txt" | sed 's/ - .*//' | sort > "$out/tests_failing.txt"
 fi
